@@ -48,6 +48,10 @@ CLAIMED = {
    text='Family sortgroup of Pipeline.tla: dict payloads (incomparable: comparing two examples raises TypeError in the real code), ties, empty and singleton datasets; every sort (keyless / id / neg / mod2 / const x reverse) and groupby (mod2 / const / id x group id) on top of every depth<=1 (thorough 2) pipeline plus random deeper ones. TLC judges the recorded real observation: permutation of the input, sort keys monotone (reverse included), example keys in order for keyless sort, keys attached to their examples, a group = the examples with its id in original order.',
    note='As C01. The content of the input is taken from the reference of the input program (tied to the code by C01).',
    tech='TLA+ state machine over API programs, TLC BFS + trace validation of real observations'),
+ 'C16': dict(engine='pipeline', cat='model_checking', ref='DESIGN.md section 6 C16',
+   text='Laws.tla: every law (batch/unbatch identity, concat of split, slice-of-slice composition, map distributing over slicing / one-time shuffle / concatenation / caching / batching (batch_map) / sort, map fusion, lazy ~ eager filter ~ FilterException under catch, filter vs order-preserving selection, tile = r-fold concatenation) is instantiated at EVERY program TLC enumerates from Pipeline.tla (depth <= 1, thorough 2) with all its parameters. Design level: TLC checks that each instance is correctly stated (the two references are equal) and that the implementation-shaped model satisfies it, which also fixes the level of comparison (iteration / + len and indexing / + keys, items, key lookup). Both sides of every instance are executed on the real library and TLC judges the two REAL observations for observational equality - an oracle independent of the reference.',
+   note='As C01. The comparison level of an instance is the strongest at which the model satisfies the law (capabilities of the two sides may legitimately differ, e.g. keys() with duplicate keys).',
+   tech='TLA+ law operators over TLC-enumerated programs, trace validation of both sides'),
 }
 
 PENDING_REASON = 'check not built yet in this round (specification planned in DESIGN.md section 6); will be claimed when its check exists'
@@ -87,7 +91,7 @@ def main():
         },
         'engines': [
             {'name': 'pipeline', 'path': '/verif/specs/Pipeline.tla',
-             'serves_properties': ['C01', 'C02', 'C03', 'C14', 'C18'],
+             'serves_properties': ['C01', 'C02', 'C03', 'C14', 'C16', 'C18'],
              'kind_free_text': 'TLA+ specs Values/Ref/Impl/Obs/Pipeline/PipelineTrace checked with TLC; harness/{build,observe,pipeline}.py bind them to the code in both directions'},
             {'name': 'shards', 'path': '/verif/specs/Shards.tla', 'serves_properties': ['C15'],
              'kind_free_text': 'Shards.tla / ShardsTrace.tla + harness/check_shards.py'},
